@@ -123,3 +123,55 @@ func init() {
 		}
 	}
 }
+
+// hlp: the three string helpers of css/handlers.go through their hooks, against their Lean models.
+func init() {
+	families["hlp"] = func(c *ctx) {
+		pieces := []string{"a", "b", "1px", "", " ", ",", "/", "red", "RED", "Straße", "K", "İ", "\xff", "\xc3", "a b", " a ", "\ta\n", " x ", " ", "x,y", "//", ", ,", "a/b/c", "\\", "<", "@", ">"}
+		pick := func() string { return pieces[c.r.Intn(len(pieces))] }
+		join := func(n int, sep string) string {
+			var xs []string
+			for i := 0; i < n; i++ {
+				xs = append(xs, pick())
+			}
+			return strings.Join(xs, sep)
+		}
+		enc := func(xs []string) string {
+			if len(xs) == 0 {
+				return "-"
+			}
+			var hs []string
+			for _, x := range xs {
+				hs = append(hs, bmxHex(x))
+			}
+			return strings.Join(hs, ",")
+		}
+		for i := 0; i < c.n; i++ {
+			switch i % 3 {
+			case 0:
+				v := join(c.r.Intn(6), []string{",", ", ", " , ", ""}[c.r.Intn(4)])
+				fmt.Fprintf(c.w, "hlp sv %s %s\n", bmxHex(v), enc(css.VerifSplitValues(v)))
+			case 1:
+				v := join(c.r.Intn(7), []string{" ", "/", " / ", ","}[c.r.Intn(4)])
+				seps := [][]string{{" "}, {" ", "/"}, {"/", " "}, {",", " ", "/"}, {}, {"ab"}, {"//"}}[c.r.Intn(7)]
+				fmt.Fprintf(c.w, "hlp ms %s %s %s\n", bmxHex(v), enc(seps), enc(css.VerifMultiSplit(v, seps...)))
+			default:
+				var a, b []string
+				for k := c.r.Intn(4); k > 0; k-- {
+					a = append(a, pick())
+				}
+				for k := c.r.Intn(6); k > 0; k-- {
+					b = append(b, pick())
+				}
+				fmt.Fprintf(c.w, "hlp in %s %s %s\n", enc(a), enc(b), b01(css.VerifIn(a, b)))
+			}
+		}
+	}
+}
+
+func bmxHex(s string) string {
+	if s == "" {
+		return "e"
+	}
+	return fmt.Sprintf("%x", s)
+}
